@@ -13,13 +13,13 @@ CHECKS = {
    text="Machine-checked theorems (Coq) about an executable model of poetry.core.version.pep440: the comparison is a "
         "strict total order equal to the reference _cmpkey order with zero-padded releases, equality is exact on hash "
         "keys, 1.0 == 1.0.0, dev < pre < final < post, local-label order, normal form = reference canonical form, every "
-        "parsed version is well-formed. Tie to the code: the extracted model and Version.parse/to_string/</==/hash are run "
+        "parsed version is well-formed; the normalised text re-parses to the same version, field by field, for every version the parser "
+        "can return (the regex matcher is followed through the printed text). Tie to the code: the extracted model and Version.parse/to_string/</==/hash are run "
         "on the same ~120k generated strings and pairs per quick run and diffed; the reference (packaging) is run on the "
         "same cases as the property oracle and to validate the Spec.",
    design="8/C03",
    note=BASE_NOTE + "Modelled, not verified: the re engine (VERSION_PATTERN is re-implemented by hand for ASCII input and "
-        "validated by correspondence only); non-ASCII input is checked implementation-vs-reference only. The text round "
-        "trip parse(to_string v) is established by the oracle on every case, not yet by a theorem.",
+        "validated by correspondence only); non-ASCII input is checked implementation-vs-reference only.",
    technique="Coq proof over an executable model + differential correspondence (extracted OCaml vs implementation) + reference oracle"),
  "C04": dict(
    text="Coq theorems: for every candidate (all pre/post/dev/local forms) the ranges the parser builds for >=, <=, == and bare "
@@ -31,23 +31,26 @@ CHECKS = {
         "itself is evaluated on the implementation against SpecifierSet.contains(prereleases=True) for every in-domain case.",
    design="8/C04",
    note=BASE_NOTE + "Also proved by composition (Proofs/ParseCompose.v): what _parse_constraint builds from a comma set of range-like clauses "
-        "and from '||' groups means the conjunction / disjunction of the clause memberships on every regular candidate. Not yet theorems at clause "
-        "level (correspondence + reference oracle only): !=, ~=, wildcards, ^, ~ (see C15); comma sets containing a union-valued clause.",
+        "and from '||' groups means the conjunction / disjunction of the clause memberships on every regular candidate; and (Proofs/ClauseText.v) "
+        "what parse_single_constraint builds from the TEXT of a clause '>=V', '<=V', '>V', '<V', '==V', 'V', '!=V' for every version literal in normal form "
+        "(followed through the five patterns the parser tries in order). Not theorems (correspondence + reference oracle only): wildcard clauses, blanks "
+        "and upper case inside a clause, comma sets containing a union-valued clause.",
    technique="Coq proof over an executable model + differential correspondence + reference oracle (packaging)"),
  "C05": dict(
    text="Coq theorems: on regular probes VersionRange.allows/Version.allows are plain interval membership; exact meaning of "
         "allows_lower/allows_higher/is_strictly_lower for every regular probe (finite rank embedding + lia); UNION exact for every "
         "constraint shape (single versions, ranges, unions on either side) through VersionUnion.of with its sorting, look-back merge "
         "and recursion, for every fuel; INTERSECTION exact for every shape under the decidable hypothesis that union members are "
-        "sorted and apart (evaluated by the model on every generated operand: ~96% meet it); DIFFERENCE exact for two range-likes of "
-        "any shape under mutual regularity of the bounds; results are again well-formed. The bound comparisons of "
+        "sorted and apart (evaluated by the model on every generated operand: ~96% meet it); DIFFERENCE exact for every shape (range minus "
+        "union, the complement used by allows/printing, the two-cursor state machine of VersionUnion.difference) under the further decidable "
+        "hypothesis that the bounds of the two operands are mutually regular (evaluated on every generated pair); results are again well-formed. The bound comparisons of "
         "version_range_constraint.py are re-translated from /repo on every run and proved equal to the model's (a change of meaning "
         "breaks a proof obligation). All operations at every level are also decided by correspondence: model and implementation run "
         "on the same 2500 generated pairs x 3 operations per quick run, compared structurally and on ~35 critical probes per case; "
         "the property oracle (regular probes, commutativity, empty/universal identities) runs on the implementation.",
    design="8/C05",
-   note=BASE_NOTE + "Partial: difference with a union operand, totality beyond the range level, and the sortedness of VersionUnion.of's "
-        "result (false in general: '>2.0 || 2.0.post2') rest on correspondence and the oracle. Membership in theorems is the "
+   note=BASE_NOTE + "Partial: totality beyond the range level (incl. that the fuel of the difference state machine suffices) and the sortedness of "
+        "VersionUnion.of's result (false in general: '>2.0 || 2.0.post2') rest on correspondence and the oracle. Membership in theorems is the "
         "member-by-member [sem]; [allows] equals it except for a union excluding one version with a local label (proved).",
    technique="Coq proof (rank embedding + lia; translator tie for the bound comparisons) over an executable model + differential correspondence + property oracle"),
  "C12": dict(
@@ -58,17 +61,19 @@ CHECKS = {
         "equal to the model's. All walks are tied by correspondence on 4000 generated pairs per quick run; the oracle checks the "
         "five clauses of the property on the implementation (allows_any <-> non-empty intersection included).",
    design="8/C12",
-   note=BASE_NOTE + "Partial: 'allows any' <-> non-empty intersection is decided by correspondence and oracle only.",
+   note=BASE_NOTE + "'allows any' <-> non-empty intersection is proved for operands without degenerate members (Proofs/AnyIff.v; decidable, flagged at run time).",
    technique="Coq proof (incl. translator tie) over an executable model + differential correspondence + property oracle"),
  "C15": dict(
    text="Coq theorems: next_major/next_minor/next_patch/next_breaking return final releases strictly greater than V (any "
-        "well-formed V); ^V and ~V (the ranges parse_single builds) admit V and reject their upper bound and every "
-        "pre-release/dev release of it. The text round trip is decided by correspondence (str() of every parsed constraint "
+        "well-formed V); ^V, ~V and ~=V admit V and reject their upper bound and every pre-release/dev release of it, and these ranges are "
+        "what parse_single_constraint builds from the text '^V', '~V', '~=V' for every version literal in normal form (Proofs/ClauseText.v); every "
+        "single clause and every version round-trips through its text (C04_clause_text, C03_text_roundtrip). The text round trip of comma sets, unions, "
+        "wildcards and exclusions is decided by correspondence (str() of every parsed constraint "
         "and of every algebra result in C05's stream equals the model's printer output byte for byte) and by the oracle: "
         "re-parse and compare on regular probes, reference specifier syntax for single ranges/wildcards/exclusions, ~=V against "
         "the reference compatible-release clause.",
    design="8/C15",
-   note=BASE_NOTE + "Partial: the text round trip is not a theorem yet.",
+   note=BASE_NOTE + "Partial: the text round trip is a theorem for versions and single clauses only.",
    technique="Coq proof over an executable model + differential correspondence + oracle (re-parse, packaging)"),
 
  "C01": dict(
